@@ -8,6 +8,9 @@ import (
 	"go/types"
 	"sort"
 	"strings"
+	"sync"
+	"sync/atomic"
+	"time"
 
 	"golang.org/x/tools/go/ssa"
 )
@@ -33,38 +36,87 @@ type ModelInput struct {
 	Bytes string `json:"bytes,omitempty"` // hex
 }
 
+// Shared is the state common to all path workers of one harness run.
+type Shared struct {
+	mu           sync.Mutex
+	cond         *sync.Cond
+	work         []*State
+	active       int // workers currently executing a state
+	genCtr       int64
+	obligs       []Oblig
+	trivial      map[string]int
+	statusCount  map[string]int
+	funcsSeen    map[string]bool
+	stubsSeen    map[string]bool
+	inconclusive []string
+	reached      map[string]int
+	covers       map[string]bool
+	witness      map[string]*Model
+	errTypeCache map[string]types.Type
+	paths        int
+	instrs       int64
+	forks        int
+	queries      int
+	unknowns     int
+	solverErrors int
+	solverTime   time.Duration
+	workers      int
+	spawnWorker  func()
+}
+
+// Engine is one path worker: it owns a solver session and shares everything else.
 type Engine struct {
-	prog    *ssa.Program
-	tb      *TB
-	sol     *Solver
-	ia      bool
-	harness string
-	hprop   string // primary property of the harness (Cxx)
-	tier    int
+	*Shared
+	prog      *ssa.Program
+	tb        *TB
+	sol       *Solver
+	ia        bool
+	harness   string
+	hprop     string // primary property of the harness (Cxx)
+	tier      int
+	maxPaths  int
+	maxSteps  int
+	timeout   int
+	solverBin string
+}
 
-	work    []*State
-	genCtr  int64
-	obligs  []Oblig
-	trivial map[string]int
-
-	paths, instrs, forks int
-	statusCount          map[string]int
-	funcsSeen            map[string]bool
-	stubsSeen            map[string]bool
-	maxPaths             int
-	maxSteps             int
-	unwind               int
-	inconclusive         []string
-	reached              map[string]int
-	covers               map[string]bool
-	panicsOn             bool
-	errTypeCache         map[string]types.Type
-	witness              map[string]*Model
-	noBlockLabel         string
-	initDone             map[*ssa.Package]bool
-	bootGlobals          map[*ssa.Global]int
-	bootHeap             []*Object
-	turnPkgs             []*ssa.Package
+func (e *Engine) addOblig(ob Oblig) {
+	e.mu.Lock()
+	e.obligs = append(e.obligs, ob)
+	e.mu.Unlock()
+}
+func (e *Engine) incTrivial(label string) {
+	e.mu.Lock()
+	e.trivial[label]++
+	e.mu.Unlock()
+}
+func (e *Engine) note(msg string) {
+	e.mu.Lock()
+	if len(e.inconclusive) < 200 {
+		e.inconclusive = append(e.inconclusive, msg)
+	}
+	e.mu.Unlock()
+}
+func (e *Engine) sawFunc(name string) {
+	e.mu.Lock()
+	e.funcsSeen[name] = true
+	e.mu.Unlock()
+}
+func (e *Engine) sawStub(name string) {
+	e.mu.Lock()
+	e.stubsSeen[name] = true
+	e.mu.Unlock()
+}
+func (e *Engine) endPath(status string) {
+	e.mu.Lock()
+	e.paths++
+	e.statusCount[status]++
+	e.mu.Unlock()
+}
+func (e *Engine) incForks() {
+	e.mu.Lock()
+	e.forks++
+	e.mu.Unlock()
 }
 
 const modPath = "github.com/pion/turn/v5"
@@ -73,7 +125,16 @@ func isTurnPkg(p *ssa.Package) bool {
 	return p != nil && p.Pkg != nil && strings.HasPrefix(p.Pkg.Path(), modPath)
 }
 
-func (e *Engine) push(st *State) { e.work = append(e.work, st) }
+func (e *Engine) push(st *State) {
+	e.mu.Lock()
+	e.work = append(e.work, st)
+	spawn := e.spawnWorker
+	e.mu.Unlock()
+	e.cond.Signal()
+	if spawn != nil {
+		spawn()
+	}
+}
 
 func (e *Engine) pos(f *Frame, in ssa.Instruction) string {
 	p := e.prog.Fset.Position(in.Pos())
@@ -120,7 +181,7 @@ func (e *Engine) branch(st *State, c Term) (alive bool, val bool, other *State) 
 		o := e.clone(st)
 		o.pc = append(o.pc, e.tb.Not(c))
 		st.pc = append(st.pc, c)
-		e.forks++
+		e.incForks()
 		return true, true, o
 	case ft:
 		st.pc = append(st.pc, c)
@@ -200,7 +261,7 @@ func (e *Engine) modelOf(st *State) *Model {
 // oblige records the obligation "cond holds here". Returns the solver result.
 func (e *Engine) oblige(st *State, cond Term, label, kind, where string) string {
 	if cond.isTrue() {
-		e.trivial[label]++
+		e.incTrivial(label)
 		return "trivial"
 	}
 	r := e.sol.check(st.pc, e.tb.Not(cond))
@@ -208,7 +269,7 @@ func (e *Engine) oblige(st *State, cond Term, label, kind, where string) string 
 	if r == "sat" {
 		ob.Model = e.modelOf(st)
 	}
-	e.obligs = append(e.obligs, ob)
+	e.addOblig(ob)
 	return r
 }
 
@@ -226,26 +287,26 @@ func (e *Engine) failHere(st *State, label, kind, where string) {
 	if r == "sat" {
 		ob.Model = e.modelOf(st)
 	}
-	e.obligs = append(e.obligs, ob)
+	e.addOblig(ob)
 }
 
 // panicIf adds the obligation that `safe` holds; on violation the violation is recorded and the path continues under `safe`.
 func (e *Engine) panicCheck(st *State, f *Frame, in ssa.Instruction, safe Term, kind string) bool {
 	if safe.isTrue() {
-		if e.panicsOn {
-			e.trivial[e.hprop+".no_panic"]++
+		if st.panicsOn {
+			e.incTrivial(e.hprop + ".no_panic")
 		}
 		return true
 	}
 	where := kind + " @ " + e.pos(f, in)
 	if safe.isFalse() {
-		if e.panicsOn {
+		if st.panicsOn {
 			e.failHere(st, e.hprop+".no_panic", "panic", where)
 		}
 		st.status = "panicked"
 		return false
 	}
-	if e.panicsOn {
+	if st.panicsOn {
 		e.oblige(st, safe, e.hprop+".no_panic", "panic", where)
 	}
 	if !e.feasible(st, safe) {
@@ -596,6 +657,8 @@ func zeroSized(t types.Type) bool {
 var errorType = types.Universe.Lookup("error").Type()
 
 func (e *Engine) errStringType() types.Type {
+	e.mu.Lock()
+	defer e.mu.Unlock()
 	if t, ok := e.errTypeCache["errorString"]; ok {
 		return t
 	}
@@ -672,9 +735,9 @@ func (e *Engine) run(st *State) {
 						where = " @ " + e.pos(f, f.blk.Instrs[f.ip-1])
 					}
 				}
-				e.inconclusive = append(e.inconclusive, "unsupported: "+string(h)+where)
+				e.note("unsupported: " + string(h) + where)
 				st.status = "unsupported"
-				e.statusCount[st.status]++
+				e.endPath(st.status)
 				return
 			}
 			panic(r)
@@ -684,10 +747,10 @@ func (e *Engine) run(st *State) {
 		f := st.top()
 		in := f.blk.Instrs[f.ip]
 		f.ip++
-		e.instrs++
+		atomic.AddInt64(&e.instrs, 1)
 		st.steps++
 		if st.steps > e.maxSteps {
-			e.inconclusive = append(e.inconclusive, "step limit reached in "+f.fn.String())
+			e.note("step limit reached in " + f.fn.String())
 			st.status = "unwound"
 			break
 		}
@@ -697,8 +760,7 @@ func (e *Engine) run(st *State) {
 		st.status = "returned"
 		e.endOfPath(st)
 	}
-	e.paths++
-	e.statusCount[st.status]++
+	e.endPath(st.status)
 }
 
 func (e *Engine) endOfPath(st *State) {
@@ -712,15 +774,15 @@ func (e *Engine) endOfPath(st *State) {
 	if len(ids) > 0 {
 		e.failHere(st, e.hprop+".lock_balance", "lock", fmt.Sprintf("mutex still held at end of harness (%d lock object(s))", len(ids)))
 	} else {
-		e.trivial[e.hprop+".lock_balance"]++
+		e.incTrivial(e.hprop + ".lock_balance")
 	}
 }
 
 func (e *Engine) jump(st *State, f *Frame, to *ssa.BasicBlock) {
 	f.prev, f.blk, f.ip = f.blk, to, 0
 	f.visits[to]++
-	if f.visits[to] > e.unwind {
-		e.inconclusive = append(e.inconclusive, fmt.Sprintf("unwinding bound %d hit in %s block %d", e.unwind, f.fn.String(), to.Index))
+	if f.visits[to] > st.unwind {
+		e.note(fmt.Sprintf("unwinding bound %d hit in %s block %d", st.unwind, f.fn.String(), to.Index))
 		st.status = "unwound"
 	}
 }
@@ -757,8 +819,7 @@ func (e *Engine) step(st *State, f *Frame, in ssa.Instruction) {
 			if other.status == "" {
 				e.push(other)
 			} else {
-				e.paths++
-				e.statusCount[other.status]++
+				e.endPath(other.status)
 			}
 		}
 		if val {
